@@ -1089,6 +1089,10 @@ def _at_loop_head(self, st, fr):
     key = (fr.uid, fr.bb)
     visits[key] = visits.get(key, 0) + 1
     st.meta["lh"] = visits
+    prev_all = dict(st.meta.get("lh_prev", {}))
+    prev_locals = prev_all.get(key)
+    prev_all[key] = dict(fr.locals)
+    st.meta["lh_prev"] = prev_all
     if visits[key] == 1:
         first = dict(st.meta.get("lh_first", {}))
         first[key] = dict(fr.locals)
@@ -1096,6 +1100,22 @@ def _at_loop_head(self, st, fr):
         return
     if st.meta.get("stop_at") is not None:
         return      # already inside a probe
+    # template 2: pure walk to the end of a chain (cursor local holds a NodeId)
+    for l, v in list(fr.locals.items()):
+        if isinstance(v, VStruct) and v.adt == NODEID:
+            g = st.node_of_id(v)
+            if g is None:
+                continue
+            gr = st.nodes[g]
+            if gr.fresh or gr.cur or not gr.origin.startswith("H0[") or "]." not in gr.origin:
+                continue
+            prev, fld = gr.origin[3:].split("].", 1)
+            if fld not in LINKS or fld in gr.h0 or prev not in st.nodes or prev_locals is None:
+                continue
+            pv = prev_locals.get(l)
+            if not (isinstance(pv, VStruct) and pv.adt == NODEID and st.node_of_id(pv) == prev):
+                continue
+            self._try_chain_end(st, fr, l, g, fld, key)
     # candidate cursors: locals holding Some(id of an unconstrained chain member)
     for l, v in list(fr.locals.items()):
         if isinstance(v, VLazy) and v.n in st.nodes and v.field in st.nodes[v.n].h0:
@@ -1232,3 +1252,105 @@ def _try_summarise(self, st, fr, l, g):
 
 
 Interp._try_summarise = _try_summarise
+
+
+def _try_chain_end(self, st, fr, l, g, fld, key):
+    """Loop `cur = start; while let Some(n) = cur.<fld> { cur = n }`-like: when the cursor is an unconstrained chain member g, verify by a probe
+    that one iteration only advances the cursor along fld without any effect, then jump to the end of the chain (or to a named later member)."""
+    sc = st.copy()
+    try:
+        g2 = sc.new_node(True, "probe successor")
+        sc.set_h0_link(g, fld, g2)
+        sc.propagate()
+    except (Infeasible, Undecided):
+        return
+    f2 = sc.frames[-1]
+    sc.meta["stop_at"] = (f2.uid, f2.bb)
+    sc.meta["stop_armed"] = False
+    nev = len(sc.events)
+    depth = len(sc.frames)
+    try:
+        guard = 0
+        while True:
+            guard += 1
+            if guard > 300:
+                return
+            t = self.run_block(sc)
+            if t is not None or len(sc.frames) < depth:
+                return
+    except LoopHeadReached:
+        pass
+    except (Fork, Panic, Undecided, Infeasible):
+        return
+    if len(sc.frames) != depth:
+        return
+    f2 = sc.frames[-1]
+    nv = f2.locals.get(l)
+    if not (isinstance(nv, VStruct) and nv.adt == NODEID and sc.node_of_id(nv) == g2):
+        return
+    for k2 in set(fr.locals) | set(f2.locals):
+        if k2 == l:
+            continue
+        a, b = fr.locals.get(k2), f2.locals.get(k2)
+        if a is None or b is None or vkey(a) != vkey(b):
+            return
+    if any(e[0] in ("write", "write-arena", "push", "clear", "drop-data") for e in sc.events[nev:]):
+        return
+    if sc.len != st.len:
+        return
+    # verified: the loop is a pure walk along fld.  Decide where it ends.
+    first_locals = st.meta.get("lh_first", {}).get(key, {})
+    c0v = first_locals.get(l)
+    start = st.node_of_id(c0v) if isinstance(c0v, VStruct) else None
+    # members already passed (known fld-path into g) cannot come again (acyclic)
+    before = set()
+    for k in st.nodes:
+        c = k
+        seen = set()
+        while c not in ("unk", None) and c not in seen:
+            seen.add(c)
+            if c == g:
+                before.add(k)
+                break
+            c = st.h0_link(c, fld) if not st.nodes[c].fresh and st.nodes[c].live0 else None
+    luid = fr.uid
+
+    def set_local(s, val):
+        for f in s.frames:
+            if f.uid == luid:
+                f.locals[l] = val
+
+    opts = []
+    for (label, fn) in st.materialise_options(g, fld):
+        if label.endswith("=new"):
+            continue
+        opts.append((label, fn))
+
+    def jump_fresh(s):
+        e = s.new_node(True, "end of the %s-chain of %s" % (fld, start))
+        s.set_h0_link(e, fld, None)
+        pg = s.h0_link(g, "parent")
+        if pg != "unk":
+            s.set_h0_link(e, "parent", pg)
+        set_local(s, s.id_of(e))
+        s.meta["reach"] = tuple(s.meta.get("reach", ())) + ((fld, start, e), (fld, g, e))
+        s.meta["chain_gap"] = tuple(s.meta.get("chain_gap", ())) + ((fld, g, e),)
+    opts.append(("walk %s from %s to a fresh chain end" % (fld, g), jump_fresh))
+    for k, kr in st.nodes.items():
+        if k in before or kr.fresh or not kr.live0 or k == g:
+            continue
+        def jump_named(s, k=k):
+            pg, pk = s.h0_link(g, "parent"), s.h0_link(k, "parent")
+            if pg != "unk" and pk != "unk" and pg != pk:
+                raise Infeasible("different chains")
+            if pg != "unk" and pk == "unk":
+                s.set_h0_link(k, "parent", pg)
+            set_local(s, s.id_of(k))
+            s.meta["reach"] = tuple(s.meta.get("reach", ())) + ((fld, start, k), (fld, g, k))
+            s.meta["chain_gap"] = tuple(s.meta.get("chain_gap", ())) + ((fld, g, k),)
+        opts.append(("walk %s from %s on to %s" % (fld, g, k), jump_named))
+    st.meta["summaries"] = st.meta.get("summaries", ()) + (("chain-end", fr.fnkey, fld, start),)
+    raise Fork(opts, "chain walk along %s in %s" % (fld, fr.fnkey))
+
+
+Interp._try_chain_end = _try_chain_end
